@@ -216,13 +216,11 @@ def run(ck):
             for nm in ("Lss", "Lsv", "L1vv", "L0vv"):
                 if not errs[nm] <= 1e-8:
                     ck.violation("%s (injected) differs from the exact torus chain by %.3g relative" % (nm, errs[nm]), rep_doc, key="c01-float-" + nm)
-                if not errs[nm + "_polar"] <= 1e-8:
-                    polar_seen += 1
-                    if npolar == 0:
-                        ck.violation("%s differs (%.3g) although the crystal has no site vector basis" % (nm, errs[nm + "_polar"]), rep_doc, key="c01-float-" + nm)
-                    else:
-                        ck.violation("%s: components in the span of the site vector basis differ from the exact chain by %.3g" % (nm, errs[nm + "_polar"]),
-                                     rep_doc, key=KEY_POLAR)
+                # components in the span of a site vector basis are NOT compared under injection: the torus pseudo-inverse differs
+                # from the lattice Green function by a constant to which the origin-state terms are sensitive (they are compared
+                # with the real Green function against the extrapolated chain itself in tier c)
+                if npolar == 0 and not errs[nm + "_polar"] <= 1e-8:
+                    ck.violation("%s differs (%.3g) although the crystal has no site vector basis" % (nm, errs[nm + "_polar"]), rep_doc, key="c01-float-" + nm)
         # (c) real Green function on a subset
         if (nreal < ck.n(3, 12)) and crys.dim * 1 >= 2 and nst <= 1400:
             nreal += 1
@@ -233,24 +231,41 @@ def run(ck):
             dd = crys.dim
             M1, M2 = (M, M + 2) if dd == 3 else (M + 2, M + 6)
             if d.N * d.N * M2 ** dd > 6000: M1, M2 = M, M + 2
-            I1 = vm.inject(d, args, M1); I2 = vm.inject(d, args, M2)
             Q, npolar = polar_projector(d)
+            if npolar == 0:
+                I1 = vm.inject(d, args, M1); I2 = vm.inject(d, args, M2)
+            else:
+                # polar crystal: compare ALL components with the torus chain itself (no injection), implementation normalisation
+                def chainvals(Mx):
+                    o = vm.oracle(d, args, Mx)
+                    pV, pS = probs(d, args[0], args[1]); cc = site_contrib(d, args[0], args[3])
+                    X = sum(pS[s_] * pV[s_] * cc[s_] for s_ in range(d.N)) / d.N
+                    return [o["L0vv"], o["Lss"], o["Lsv"], o["Lvv"] - o["Lvv0"] + X]
+                I1 = chainvals(M1); I2 = chainvals(M2)
             scale = np.abs(R[0]).max()
-            worst = 0.0; step = 0.0
+            worst = 0.0; step = 0.0; worstp = 0.0
             for a in range(4):
                 ext = (M2 ** dd * I2[a] - M1 ** dd * I1[a]) / (M2 ** dd - M1 ** dd)
-                worst = max(worst, np.abs(Q @ (R[a] - ext) @ Q).max() / scale)
-                step = max(step, np.abs(Q @ (I2[a] - I1[a]) @ Q).max() / scale)
+                dq = Q @ (R[a] - ext) @ Q
+                worst = max(worst, np.abs(dq).max() / scale)
+                worstp = max(worstp, np.abs((R[a] - ext) - dq).max() / scale)
+                step = max(step, np.abs(I2[a] - I1[a]).max() / scale)
             # tolerance: the extrapolation removes the leading 1/M^d term; what is left is bounded by a fraction of the
             # finite-size step itself (calibrated on the unchanged tree: ratio <= 0.3 over the named pool) plus BZ accuracy
             tolreal = 0.5 * step + 2e-3
             ck.case(key=("real", label, Nth, [np.asarray(a).round(12).tolist() for a in args]), nontrivial=True, kind="realGF:%dD" % dd,
                     sample={"tier": "real-GF", "crystal": label, "M1": M1, "M2": M2, "rel_error_vs_extrapolation": float(worst), "tolerance": float(tolreal)} if nreal <= 2 else None)
+            if npolar and not worstp <= tolreal:
+                polar_seen += 1
+                ck.violation("real GF: components in the span of the site vector basis differ from the extrapolated exact chain by %.3g relative" % worstp,
+                             {"crystal": repr(crys), "chem": chem, "cutoff": cut, "Nthermo": Nth, "M1": M1, "M2": M2,
+                              "thermo": {k: np.asarray(v).tolist() for k, v in th.items()}, "Lij": [x.tolist() for x in R],
+                              "chain_M1": [np.asarray(x).tolist() for x in I1], "chain_M2": [np.asarray(x).tolist() for x in I2]}, key=KEY_POLAR)
             if not worst <= tolreal:
                 ck.violation("un-injected Lij differs from the Richardson-extrapolated torus limit by %.3g relative" % worst,
                              {"crystal": repr(crys), "chem": chem, "cutoff": cut, "Nthermo": Nth, "M1": M1, "M2": M2,
                               "thermo": {k: np.asarray(v).tolist() for k, v in th.items()}, "Lij": [x.tolist() for x in R],
-                              "Lij_injected_M1": [x.tolist() for x in I1], "Lij_injected_M2": [x.tolist() for x in I2]}, key="c01-realGF")
+                              "ref_M1": [np.asarray(x).tolist() for x in I1], "ref_M2": [np.asarray(x).tolist() for x in I2]}, key="c01-realGF")
     ck.extra["float_cases"] = nfloat
     ck.extra["realGF_cases"] = nreal
     ck.extra["skipped"] = skipped
